@@ -89,7 +89,8 @@ DefOlaArgs(kw) ==
 OlaArgsOK(f, kw) ==
   LET want == DefOlaArgs(kw) IN
   /\ DOMAIN f \subseteq DOMAIN want
-  /\ \A n \in DOMAIN f : f[n] = want[n]
+  /\ \A n \in DOMAIN f : \/ f[n] = want[n]
+                          \/ (n = "hop" /\ want[n] = 0 /\ f[n] = kw["size"])   \* ... or as its documented default
   /\ \A n \in DOMAIN want : n \in DOMAIN f \/ (n = "hop" /\ want[n] = 0)
 
 \* configurations this model speaks about: numpy is absent, so every stage and the overlap-add
